@@ -109,6 +109,26 @@ def _lock_decorators(ck, module):
     return out
 
 
+def _fa_reaching(ck, fa: FA, st):
+    """`fa`, or -- when statement `st` sits in an exception handler that no edge of the CFG leads to (the try body is a plain
+    attribute read, which the CFG treats as non-raising) -- an analysis of that handler's body on its own, as if the handler
+    had just been entered.  The statements are the same objects, so facts recorded about them carry over."""
+    if st is None or fa.nodes(st):
+        return fa
+    h = fa.enclosing(st, (ast.ExceptHandler,))
+    if h is None:
+        return fa
+    from ..loader import FuncInfo
+    synth = ast.FunctionDef(name=fa.fi.name, args=fa.fi.node.args, body=list(h.body), decorator_list=[], returns=None, type_comment=None)
+    try:
+        synth.type_params = []
+    except Exception:
+        pass
+    ast.copy_location(synth, h)
+    sub = FA(ck, FuncInfo(fa.fi.module, synth, fa.fi.qual, cls=fa.fi.cls, parent=fa.fi.parent))
+    return sub if sub.nodes(st) else fa
+
+
 def _sources(fa, r):
     from .cache_model import value_sources
     return value_sources(fa, r)
@@ -447,6 +467,413 @@ def check_cache_guarded(ck, cm: CacheModel, rule="C09.R3"):
     return lock, decos
 
 
+_CONSUMERS = {"next", "list", "tuple", "set", "frozenset", "sorted", "sum", "any", "all", "max", "min", "dict", "deque", "enumerate", "zip", "chain"}
+_DRAINERS = _CONSUMERS - {"enumerate", "zip", "chain"}
+
+
+class SectionFlow:
+    """What runs on behalf of ONE call of a host function (memento_run_local): the host's own statements plus the helpers
+    that are new with respect to the reference inventory and that the host mentions, directly or through other such
+    helpers -- nested functions and closures handed on as thunks, module-level helpers, the methods of a method object
+    (a new class), generators, functions listed in a module-level dispatch table.  (The front end inlines most new
+    helpers into the host; this covers what it leaves as calls.)
+
+    A helper's code is taken to run where the helper is MENTIONED (called, or handed on by name); a generator's code where
+    the generator object is consumed.  The questions the C09.R2 obligations ask are then asked of the whole flow:
+    which store / body calls belong to the call, whether each of them runs while the per-call mutex is held, and whether
+    a store re-check precedes every run of the body."""
+
+    def __init__(self, ck, host_fa: FA, held):
+        from ..inline import load_inventory
+        self.ck, self.host, self.held = ck, host_fa, held
+        repo = ck.repo
+        known = load_inventory().get("functions")
+        mod = host_fa.fi.module
+        self.mod = mod
+        self.new = {}
+        if known is not None:
+            known = set(known)
+            for fi in mod.all_funcs():
+                if fi.qual not in known and fi is not host_fa.fi:
+                    self.new[fi.qual] = fi
+        self.new_methods = {}
+        self.new_classes = {}
+        for fi in self.new.values():
+            if fi.cls is not None and fi.parent is None:
+                self.new_methods.setdefault(fi.name, []).append(fi)
+                self.new_classes.setdefault(fi.cls.name, []).append(fi)
+        self.fas = {host_fa.fi.qual: host_fa}
+        self._refs = {}
+        # the flow: closure of the host under "mentions a new helper"
+        self.flow = [host_fa.fi]
+        todo = [host_fa.fi]
+        while todo:
+            f = todo.pop()
+            for (g, _x) in self.refs(f):
+                if g not in self.flow:
+                    self.flow.append(g)
+                    todo.append(g)
+        # mentions of the flow's helpers from code that is not part of the flow (another reference function, module level)
+        self.outside = {}
+        helpers = [g for g in self.flow if g is not host_fa.fi]
+        if helpers:
+            for fi in mod.all_funcs():
+                if fi in self.flow or any(self._inside(fi, g) for g in self.flow):
+                    continue
+                for (g, x) in self.refs(fi):
+                    if g in helpers:
+                        self.outside.setdefault(g.qual, (fi, x))
+
+    @staticmethod
+    def _inside(fi, g) -> bool:
+        p = fi.parent
+        while p is not None:
+            if p is g:
+                return True
+            p = p.parent
+        return False
+
+    def fa(self, fi) -> FA:
+        if fi.qual not in self.fas:
+            self.fas[fi.qual] = FA(self.ck, fi)
+        return self.fas[fi.qual]
+
+    def _table_members(self, name, _seen=()):
+        v = self.mod.assigns.get(name)
+        out = []
+        if v is None or name in _seen or not isinstance(v, (ast.Dict, ast.List, ast.Tuple, ast.Set, ast.Call)):
+            return out
+        for x in ast.walk(v):
+            if isinstance(x, ast.Name) and isinstance(x.ctx, ast.Load):
+                g = self.mod.functions.get(x.id)
+                if g is not None and g.qual in self.new:
+                    out.append(g)
+        return out
+
+    def refs(self, f):
+        """[(new helper, the AST node that mentions it)] for the own statements of `f`"""
+        if f.qual in self._refs:
+            return self._refs[f.qual]
+        out = []
+        for x in A.walk_body(f.node):
+            if isinstance(x, ast.Name) and isinstance(x.ctx, ast.Load):
+                g, p = None, f
+                while p is not None and g is None:
+                    g = p.nested.get(x.id)
+                    p = p.parent
+                if g is None:
+                    g = self.mod.functions.get(x.id)
+                if g is not None and g.qual in self.new:
+                    out.append((g, x))
+                    continue
+                if g is None and x.id in self.new_classes:
+                    # building the method object runs its constructor
+                    for m in self.new_classes[x.id]:
+                        if m.name in ("__init__", "__post_init__", "__new__"):
+                            out.append((m, x))
+                    continue
+                if g is None:
+                    for m in self._table_members(x.id):
+                        out.append((m, x))
+            elif isinstance(x, ast.Attribute) and isinstance(x.ctx, ast.Load) and x.attr in self.new_methods:
+                for m in self.new_methods[x.attr]:
+                    out.append((m, x))
+        self._refs[f.qual] = out
+        return out
+
+    @staticmethod
+    def is_generator(fi) -> bool:
+        if any("contextmanager" in d for d in fi.decorators):
+            return False  # entered and left by the with-statement that mentions it
+        return any(isinstance(n, (ast.Yield, ast.YieldFrom)) for n in A.walk_body(fi.node))
+
+    def exec_sites(self, f, g):
+        """AST nodes of `f` at which code of helper `g` may run: its mentions; for a generator function, the places where the
+        generator object is consumed (None: a mention whose consumption cannot be seen) -- as pairs (node where it runs, mention)."""
+        fa = self.fa(f)
+        out = []
+        for (h, x) in self.refs(f):
+            if h is not g:
+                continue
+            if not self.is_generator(g):
+                out.append((x, x))
+                continue
+            out += [(site, x) for site in self._consumptions(fa, x)]
+        return out
+
+    def _consumptions(self, fa: FA, x, _depth=0):
+        # upwards from the mention to its statement: a draining call / a loop / `yield from` consumes right there
+        p, child = fa.pm.get(x), x
+        combinator = False
+        while p is not None and not isinstance(p, ast.stmt):
+            if isinstance(p, ast.Call) and isinstance(p.func, ast.Name) and p.func.id in _DRAINERS and child is not p.func:
+                return [p]
+            if isinstance(p, ast.YieldFrom):
+                return [p]
+            if isinstance(p, ast.comprehension) and child is p.iter:
+                return [p.iter]
+            child, p = p, fa.pm.get(p)
+        if isinstance(p, ast.For) and fa.inside(x, p.iter):
+            return [p.iter]
+        if isinstance(p, ast.Assign) and len(p.targets) == 1 and isinstance(p.targets[0], ast.Name) and _depth < 3:
+            # kept in a local: consumed where that local is consumed; handing the local out of the function is not a consumption
+            nm = p.targets[0].id
+            out = []
+            for u in A.walk_body(fa.node):
+                if isinstance(u, ast.Name) and u.id == nm and isinstance(u.ctx, ast.Load):
+                    out += self._consumptions(fa, u, _depth + 1)
+            return out or [None]
+        return [None]
+
+    # -- events ------------------------------------------------------------------------------------------------
+    def calls_named(self, names, recv=None):
+        """[(function of the flow, call)] for the calls of a method / function named in `names`; in the host the receiver must be
+        `recv` (when given), in a helper any receiver counts (the helper was handed the host's objects)"""
+        out = []
+        for f in self.flow:
+            fa = self.fa(f)
+            for c in fa.calls():
+                if A.call_attr(c) not in names:
+                    continue
+                if f is self.host.fi and recv is not None:
+                    r = A.call_recv(c)
+                    if r is None or _xs(fa, _through_new_instance(self, fa, r, c), c) != recv:
+                        continue
+                out.append((f, c))
+        return out
+
+    def in_section(self):
+        """{qual: bool} -- does the code of each function of the flow run only while the per-call mutex is held?  (greatest
+        fixpoint: a helper does when every place where its code may run is held in the host or lies in a helper that does)"""
+        ok = {f.qual: True for f in self.flow}
+        ok[self.host.fi.qual] = False  # the host is judged statement by statement
+        for q in self.outside:
+            ok[q] = False
+        changed = True
+        while changed:
+            changed = False
+            for g in self.flow:
+                if g is self.host.fi or not ok[g.qual]:
+                    continue
+                good = True
+                for f in self.flow:
+                    for (x, _m) in self.exec_sites(f, g):
+                        if x is None:
+                            good = False
+                        elif f is self.host.fi:
+                            good = good and self.held(x)
+                        elif f is not g:
+                            good = good and ok[f.qual]
+                if not good:
+                    ok[g.qual] = False
+                    changed = True
+        return ok
+
+    # -- order: a store re-check precedes every run of the body -------------------------------------------------
+    def recheck_order(self, recheck_calls, body_calls):
+        """-> [(function, AST node)] places where the body may run without a re-check of the store before it, anywhere in the flow"""
+        flow = self.flow
+        direct_r = {f.qual: [c for (g, c) in recheck_calls if g is f and self.fa(f).unconditional(c)] for f in flow}
+        direct_b = {f.qual: [c for (g, c) in body_calls if g is f] for f in flow}
+        # may the body run inside f?
+        may_b = {f.qual: bool(direct_b[f.qual]) for f in flow}
+        changed = True
+        while changed:
+            changed = False
+            for f in flow:
+                if not may_b[f.qual] and any(may_b[g.qual] for (g, _x) in self.refs(f) if g in flow):
+                    may_b[f.qual] = changed = True
+        # does every run of f re-check the store (before it returns / yields anything)?  least fixpoint
+        sure_r = {f.qual: False for f in flow}
+
+        def rnodes(f):
+            fa = self.fa(f)
+            out = {}
+            for c in direct_r[f.qual]:
+                for i in fa.nodes(c):
+                    out.setdefault(i, []).append(c)
+            for g in flow:
+                if g is f or not sure_r[g.qual]:
+                    continue
+                for (x, m) in self.exec_sites(f, g):
+                    if x is None:
+                        continue
+                    # the helper is really called (not just handed on), unconditionally within its statement
+                    call = fa.pm.get(m)
+                    if isinstance(call, ast.Call) and call.func is m and fa.unconditional(x) and fa.unconditional(m):
+                        for i in fa.nodes(x):
+                            out.setdefault(i, []).append(m)
+            return out
+
+        changed = True
+        while changed:
+            changed = False
+            for f in flow:
+                if sure_r[f.qual] or f is self.host.fi:
+                    continue
+                fa = self.fa(f)
+                rn = set(rnodes(f))
+                if not rn:
+                    continue
+                stops = [fa.cfg.exit] + [i for y in A.walk_body(f.node) if isinstance(y, (ast.Yield, ast.YieldFrom)) for i in fa.nodes(y)]
+                if all(fa.cfg.must_pass(rn, t) for t in stops):
+                    sure_r[f.qual] = changed = True
+
+        def before(a, b) -> bool:
+            return (getattr(a, "lineno", 0), getattr(a, "col_offset", 0)) < (getattr(b, "lineno", 0), getattr(b, "col_offset", 0))
+
+        def covered_at(f, x, m=None) -> bool:
+            """a re-check has surely happened when the code at AST node `x` of `f` (mentioned at `m`) runs"""
+            fa = self.fa(f)
+            rn = rnodes(f)
+            ids = fa.nodes(x)
+            if not ids:
+                return True  # unreachable code
+            for i in ids:
+                if fa.cfg.must_pass(set(rn) - {i}, i):
+                    continue
+                if i in rn and any(before(r, m if m is not None else x) for r in rn[i]):
+                    continue  # same statement, evaluated left to right: the re-check comes first
+                return False
+            return True
+
+        guarded = {f.qual: f is not self.host.fi and f.qual not in self.outside for f in flow}  # entered only after a re-check
+        changed = True
+        while changed:
+            changed = False
+            for g in flow:
+                if not guarded[g.qual]:
+                    continue
+                for f in flow:
+                    if f is g:
+                        continue
+                    for (x, m) in self.exec_sites(f, g):
+                        if guarded[g.qual] and (x is None or not (covered_at(f, x, m) or guarded[f.qual])):
+                            guarded[g.qual] = False
+                            changed = True
+        bad = []
+        for f in flow:
+            if guarded[f.qual]:
+                continue
+            sites = [(c, c) for c in direct_b[f.qual]]
+            for g in flow:
+                if g is not f and may_b[g.qual]:
+                    sites += [(x, m) for (x, m) in self.exec_sites(f, g) if x is not None]
+            for (x, m) in sites:
+                if not covered_at(f, x, m):
+                    bad.append((f, x))
+        return bad
+
+
+def _through_new_instance(flow, fa: FA, e, at):
+    """`obj.field` where `obj` is a local bound once to `C(...)`, C being a class that is new w.r.t. the reference inventory
+    (a method object / parameter object) whose constructor stores a parameter unchanged in that field and nothing else ever
+    assigns the field: the argument the object was built with.  Anything else: `e` itself."""
+    if not (isinstance(e, ast.Attribute) and isinstance(e.value, ast.Name)):
+        return e
+    ctor = safe_expand(fa, e.value, at)
+    if not (isinstance(ctor, ast.Call) and isinstance(ctor.func, ast.Name) and ctor.func.id in flow.mod.classes):
+        return e
+    ci = flow.mod.classes[ctor.func.id]
+    from ..inline import load_inventory
+    if ci.qual in set(load_inventory().get("classes") or [ci.qual]):
+        return e
+    # the field is bound by the constructor only
+    for n in ast.walk(flow.mod.tree):
+        if isinstance(n, ast.Attribute) and n.attr == e.attr and isinstance(n.ctx, (ast.Store, ast.Del)):
+            init = ci.methods.get("__init__")
+            if init is None or not any(n is y for y in ast.walk(init.node)):
+                return e
+    init = ci.methods.get("__init__")
+    if init is not None:
+        params = list(init.params[1:])
+        src = None
+        for st in A.all_stmts(init.node):
+            for (t, v) in assign_pairs(st):
+                if isinstance(t, ast.Attribute) and t.attr == e.attr and isinstance(t.value, ast.Name) and t.value.id == init.params[0]:
+                    if src is not None or not (isinstance(v, ast.Name) and v.id in params):
+                        return e
+                    src = v.id
+        if src is None:
+            return e
+    else:
+        # generated constructor (dataclass / NamedTuple): the declared fields, in order, are the parameters
+        params = [st.target.id for st in ci.node.body if isinstance(st, ast.AnnAssign) and isinstance(st.target, ast.Name)]
+        decos = [A.norm(d.func if isinstance(d, ast.Call) else d).split(".")[-1] for d in ci.node.decorator_list]
+        if "dataclass" not in decos and not any(b.split(".")[-1] == "NamedTuple" for b in ci.base_exprs):
+            return e
+        if "__post_init__" in ci.methods and any(isinstance(n, ast.Attribute) and n.attr == e.attr and isinstance(n.ctx, ast.Store)
+                                                 for n in ast.walk(ci.methods["__post_init__"].node)):
+            return e
+        src = e.attr
+        if src not in params:
+            return e
+    if any(isinstance(a, ast.Starred) for a in ctor.args) or any(k.arg is None for k in ctor.keywords):
+        return e
+    v = A.arg_or_kw(ctor, params.index(src), src)
+    return v if v is not None else e
+
+
+def _held_by_decorator(ck, mod, fi, holders, mutex_wrappers) -> bool:
+    """Is `fi` (whose second parameter is the invocation) decorated by a module-level decorator whose wrapper calls the
+    decorated function only while holding the per-call mutex of the invocation it passes on -- `with
+    _mutex_for_invocation(inv): return fn(ctx, inv, ...)`, the mutex taken by with-block / acquire-finally-release / ExitStack /
+    a mutex-holding context manager, the arguments named or passed on as `*args`?"""
+    if len(fi.params) < 2:
+        return False
+    for d in fi.node.decorator_list:
+        dfi = mod.functions.get(d.id) if isinstance(d, ast.Name) else None
+        if dfi is None or len(dfi.params) != 1:
+            continue
+        top = A.sig_stmts(dfi.node.body)
+        inner = [n for n in top if isinstance(n, ast.FunctionDef)]
+        rets = [n for n in top if isinstance(n, ast.Return)]
+        if len(inner) != 1 or len(rets) != 1 or len(top) != 2 or A.norm(rets[0].value) != inner[0].name:
+            continue
+        wfi = dfi.nested.get(inner[0].name)
+        if wfi is None:
+            continue
+        w = FA(ck, wfi)
+        calls = [c for c in w.calls() if isinstance(c.func, ast.Name) and c.func.id == dfi.params[0]]
+        # the decorated function is not handed on in any other way
+        mentions = [n for n in A.walk_body(wfi.node) if isinstance(n, ast.Name) and n.id == dfi.params[0]]
+        if not calls or len(mentions) != len(calls):
+            continue
+        va = wfi.node.args.vararg.arg if wfi.node.args.vararg else None
+        inv_texts = set()
+        for c in calls:
+            kw = A.kwarg(c, fi.params[1])
+            if kw is not None and isinstance(kw, ast.Name) and kw.id in wfi.params:
+                inv_texts.add(kw.id)
+            elif len(c.args) >= 2 and not any(isinstance(a, ast.Starred) for a in c.args[:2]) and isinstance(c.args[1], ast.Name) and c.args[1].id in wfi.params:
+                inv_texts.add(c.args[1].id)
+            elif va and c.args and isinstance(c.args[0], ast.Starred) and isinstance(c.args[0].value, ast.Name) and c.args[0].value.id == va:
+                inv_texts.add("%s[1]" % va)
+            else:
+                inv_texts.add(None)
+        if len(inv_texts) != 1 or None in inv_texts:
+            continue
+        inv = next(iter(inv_texts))
+
+        def holds(e, w=w, inv=inv):
+            if isinstance(e, ast.Name) and w.nodes(e):
+                x0 = safe_expand(w, e)
+                if not isinstance(x0, ast.Name):
+                    return holds(x0)
+            if isinstance(e, ast.Call) and A.call_attr(e) in holders and len(e.args) == 1 and not e.keywords and _xs(w, e.args[0], e) == inv:
+                return True
+            if isinstance(e, ast.Call) and A.call_attr(e) in mutex_wrappers and len(e.args) == 1:
+                return holds(e.args[0])
+            return False
+
+        lr = LockRegions(ck, wfi, None, is_lock=holds)
+        # nothing rebinds the wrapper's parameters between taking the mutex and the call
+        rebinds = [n for n in A.walk_body(wfi.node) if isinstance(n, ast.Name) and isinstance(n.ctx, (ast.Store, ast.Del)) and n.id in wfi.params]
+        if len(lr.sections()) == 1 and not lr.leaks() and all(lr.held(c) for c in calls) and not rebinds:
+            return True
+    return False
+
+
 def mutex_table_names(ck, mod):
     """(table, lock) by role when _mutex_for_invocation itself no longer exists: the module-level dict whose
     values are locks (a defaultdict of RLock, or a dict that some function stores RLock() into) and the
@@ -626,29 +1053,56 @@ def check(ck):
     # where the per-call mutex is held, on the CFG: a with-block, `m.acquire()` ... `finally: m.release()`, an ExitStack that
     # entered it, or a lock-holding context manager -- one critical section, given back on every way out
     section = LockRegions(ck, rl.fi, None, is_lock=holds_own_mutex)
-    if len(section.sections()) != 1 or section.leaks():
+    held = section.held
+    whole = not section.sections() and not section.acquires and _held_by_decorator(ck, mod, rl.fi, holders, mutex_wrappers)
+    if whole:
+        # a decorator of the function takes the per-call mutex of the invocation it is called with and calls the function
+        # while holding it: every statement of the function runs inside the critical section
+        held = lambda node: True
+    if not whole and (len(section.sections()) != 1 or section.leaks()):
         ck.ob(R2, rl.key(None, "critical-section"), False, "memento_run_local does not hold the per-call mutex of its own invocation", rl.where())
     else:
-        # the storage backend is the third parameter (named directly or through a local)
+        # the storage backend is the third parameter (named directly or through a local / a field of a new parameter object)
         backend = rl.fi.params[2] if len(rl.fi.params) > 2 else "storage_backend"
+        flow = SectionFlow(ck, rl, held)
+        inside = flow.in_section()
+
+        def where_of(f, c):
+            return rl.where(c) if f is rl.fi else A.loc(f, c)
+
+        def single_lookup(c) -> bool:
+            # `get_mementos([<one reference>])`: the bulk query asked about this one call -- what get_memento itself does
+            if A.call_attr(c) != "get_mementos" or len(c.args) != 1 or c.keywords:
+                return False
+            f_ = [f for f in flow.flow if any(c is x for x in flow.fa(f).calls())]
+            a0 = safe_expand(flow.fa(f_[0]), c.args[0], c) if f_ else c.args[0]
+            return isinstance(a0, (ast.List, ast.Tuple)) and len(a0.elts) == 1 and not isinstance(a0.elts[0], ast.Starred)
+
+        sites = {}
         for (name, recv) in (("get_memento", backend), ("_filter_call", None), ("is_memoized", backend), ("memoize", backend),
                              ("process_existing_memento", None)):
-            cs = [c for c in rl.calls(name) if recv is None or (A.call_recv(c) is not None and _xs(rl, A.call_recv(c), c) == recv)]
-            ok = bool(cs) and all(section.held(c) for c in cs)
+            cs = flow.calls_named((name,), recv)
+            if name == "get_memento":
+                cs += [(f, c) for (f, c) in flow.calls_named(("get_mementos",), recv) if single_lookup(c)]
+            sites[name] = cs
+            out = [(f, c) for (f, c) in cs if not (held(c) if f is rl.fi else inside[f.qual])]
+            ok = bool(cs) and not out
             ck.ob(R2, rl.key(None, "in-section-" + name), ok, "%s happens inside the per-call critical section" % name if ok else
                   ("%s is not called at all" % name if not cs else
-                   "%s happens outside the per-call critical section: two threads can both miss and both run the body" % name), rl.where(cs[0] if cs else None))
+                   "%s happens outside the per-call critical section: two threads can both miss and both run the body" % name),
+                  where_of(*out[0]) if out else rl.where(cs[0][1] if cs and cs[0][0] is rl.fi else None))
         # the re-check is unconditional and precedes the body inside the section
-        for c in rl.calls("get_memento"):
-            okc = rl.unconditional(c)
-            ck.ob(R2, rl.key(c, "recheck-unconditional"), okc, "the re-check under the mutex is unconditional" if okc else
+        for (f, c) in sites["get_memento"]:
+            ffa = flow.fa(f)
+            okc = ffa.unconditional(c)
+            ck.ob(R2, ffa.key(c, "recheck-unconditional"), okc, "the re-check under the mutex is unconditional" if okc else
                   "the store re-check under the mutex is skipped under a condition (`%s`): a caller that arrives after the first one released "
-                  "the mutex runs the body a second time" % A.short(rl.pm.get(c), 60), rl.where(c))
-        gm = rl.nodes_all([c for c in rl.calls("get_memento") if rl.unconditional(c)])
-        bd = rl.nodes_all(rl.calls("_filter_call"))
-        okp = bool(gm) and all(rl.cfg.must_pass(gm, i) for i in bd)
+                  "the mutex runs the body a second time" % A.short(ffa.pm.get(c), 60), where_of(f, c))
+        gm = [(f, c) for (f, c) in sites["get_memento"] if flow.fa(f).unconditional(c)]
+        unchecked = flow.recheck_order(gm, sites["_filter_call"]) if gm else []
+        okp = bool(gm) and not unchecked
         ck.ob(R2, rl.key(None, "recheck-before-body"), okp, "the store is re-checked under the mutex before the body runs" if okp else
-              "the body can run without re-checking the store under the mutex", rl.where())
+              "the body can run without re-checking the store under the mutex", where_of(*unchecked[0]) if unchecked else rl.where())
     # ---- R3
     cm = CacheModel(ck)
     lock, decos = check_cache_guarded(ck, cm, R3)
@@ -698,6 +1152,7 @@ def check(ck):
     for (fi, c, _) in ctor_sites:
         fa = FA(ck, fi)
         st = fa.stmt_of(c)
+        fa = _fa_reaching(ck, fa, st)
 
         def tl_store(s2, value_ok):
             """`<thread-local>.call_stack = <value>` (the thread-local object named directly or through a local alias)"""
@@ -705,6 +1160,10 @@ def check(ck):
                 any(isinstance(t, ast.Attribute) and t.attr == "call_stack" and tl and _xs(fa, t.value, s2) == tl[0] for t in s2.targets)
 
         ok = False
+        if fi.qual == "call_stack.CallStack.get" and isinstance(st, ast.Expr) and isinstance(st.value, ast.Call) and isinstance(st.value.func, ast.Name) \
+                and st.value.func.id == "setattr" and len(st.value.args) == 3 and st.value.args[2] is c and tl \
+                and _xs(fa, st.value.args[0], st) == tl[0] and A.const_str(st.value.args[1]) == "call_stack":
+            ok = True  # setattr(<thread-local>, "call_stack", CallStack())
         if fi.qual == "call_stack.CallStack.get" and isinstance(st, ast.Assign) and st.value is c:
             if tl_store(st, lambda v: v is c):
                 # the new stack is bound straight to an attribute of the thread-local object
@@ -739,7 +1198,7 @@ def check(ck):
     g = FA(ck, "call_stack.CallStack.get")
     rets = g.returns()
 
-    def own_stack(v, at) -> bool:
+    def own_stack(v, at, g=g) -> bool:
         """the value is the calling thread's stack: read from the thread-local object, or the stack just created and stored there"""
         if not tl:
             return False
@@ -756,11 +1215,15 @@ def check(ck):
     def ret_ok(r):
         if r.value is None:
             return False
+        gr = g
         if not g.nodes(r):
-            # code the explicit-edge CFG cannot reach (a handler of a try body that cannot raise): judged on its text
-            return bool(tl) and _xs(g, r.value, r) == tl[0] + ".call_stack"
-        srcs = _sources(g, r)
-        return bool(srcs) and all(own_stack(v, at) for (v, at) in srcs)
+            # code the CFG cannot reach (the handler around a plain attribute read, `try: return tl.call_stack / except
+            # AttributeError: <create, store, return>`): judged on the handler's own statements
+            gr = _fa_reaching(ck, g, r)
+            if not gr.nodes(r):
+                return bool(tl) and _xs(g, r.value, r) == tl[0] + ".call_stack"
+        srcs = _sources(gr, r)
+        return bool(srcs) and all(own_stack(v, at, gr) for (v, at) in srcs)
 
     okg = bool(rets) and tl and all(ret_ok(r) for r in rets)
     ck.ob(R5, g.key(None, "get-returns-thread-local"), bool(okg), "CallStack.get returns the calling thread's stack" if okg else
